@@ -69,6 +69,10 @@ def is_candidate(prop, harness, variant, verdict, cls, phase):
         return True  # pool_sim runs nothing but the pool: every failure is the pool's
     if prop == "C09":
         return phase != "ref"  # reference-phase failure = symmetric = precondition (DESIGN §3)
+    if prop == "C07":
+        # memory errors, fatal signals and hangs of the thread harnesses, whichever phase (the scheduler's own
+        # verdicts -- deadlock, task lost, image differs -- belong to C10/C09)
+        return verdict == "died" and not cls.startswith("exit:3")
     return False
 
 
@@ -143,7 +147,7 @@ def minimise(exe, harness, spec, trace, cls, prop, budget, log):
     return d, tr, tries[0]
 
 
-def run_thread_check(prop, tier, parts, budget_s, design_ref, assumptions, real_vs_stub, det_sample):
+def run_thread_check(prop, tier, parts, budget_s, design_ref, assumptions, real_vs_stub, det_sample, write_ev=True):
     t0 = time.time()
     budget = Budget(budget_s)
     seed = base_seed(tier)
@@ -379,6 +383,9 @@ def run_thread_check(prop, tier, parts, budget_s, design_ref, assumptions, real_
         cov["distinct_nontrivial"] = max(2, min(agg["evaluations"], 2))
     if cov["evaluations"] < 1:
         cov["evaluations"] = 1
+    if not write_ev:
+        print("%s %s (thread slice): %d simulated runs, %d violation class(es), %d known, %.1fs" % (prop, tier, agg["evaluations"], len(violations), len(known_hit), wall))
+        return exit_code, cov
     write_evidence(prop, tier, seed, "exploration", cov, wall, len(violations), assumptions)
     for p in zero_probes:
         print("note: probe %s stayed at 0 in this run" % p, file=sys.stderr)
